@@ -200,7 +200,8 @@ def _num_binop(op, a, b):
     if isinstance(a, (SFloat,)) or isinstance(b, (SFloat,)) or isinstance(a, float) or isinstance(b, float):
         raise OutOfReach("symbolic float arithmetic")
     if op == "+":
-        return mk_int(T(a) + T(b))
+        from .sym import recombine_bytes
+        return mk_int(recombine_bytes(T(a) + T(b)))
     if op == "-":
         return mk_int(T(a) - T(b))
     if op == "*":
